@@ -16,17 +16,27 @@ def _strip_decode(e):
     return e
 
 
-def _field_of(e):
-    """Which Feature field a tuple element projects."""
+def _field_of(e, func=None, depth=0):
+    """Which Feature field a tuple element projects.  Local names are
+    followed to their definition; a call of a local one-argument helper or
+    lambda (e.g. an identity/decode wrapper) is looked through."""
     e = _strip_decode(e)
+    if func is not None and isinstance(e, ast.Name) and depth < 4:
+        from ..util import resolve_name
+        r = resolve_name(e, func)
+        if r is not e:
+            return _field_of(r, func, depth + 1)
     if isinstance(e, ast.Attribute) and is_name(e.value, "self"):
         return e.attr, "plain"
     if isinstance(e, ast.Call) and call_attr(e) == "_jsonify" and len(e.args) == 1:
-        a = e.args[0]
-        if isinstance(a, ast.Attribute) and is_name(a.value, "self"):
-            return a.attr, "json"
+        fld, how = _field_of(e.args[0], func, depth + 1)
+        if fld is not None and how == "plain":
+            return fld, "json"
     if isinstance(e, ast.Call) and call_attr(e) == "calc_bin" and not e.args and not e.keywords:
         return "bin", "calc"
+    if isinstance(e, ast.Call) and isinstance(e.func, ast.Name) and len(e.args) == 1 and not e.keywords and func is not None \
+            and e.func.id in func.locals and depth < 4:
+        return _field_of(e.args[0], func, depth + 1)
     return None, norm(e)
 
 
@@ -34,7 +44,8 @@ def returned_tuples(func):
     """Tuple displays returned by a function, following one level of local
     list/tuple building (`x = [...]; return tuple(x)`)."""
     out = []
-    for r in [n for n in ast.walk(func.node) if isinstance(n, ast.Return) and n.value is not None]:
+    from ..model import walk_own
+    for r in [n for n in walk_own(func.node) if isinstance(n, ast.Return) and n.value is not None]:
         v = r.value
         if isinstance(v, ast.Call) and is_name(v.func, "tuple") and v.args:
             v = v.args[0]
@@ -94,7 +105,7 @@ def r1(ctx):
         if not ok:
             continue
         for i, (k, e) in enumerate(zip(keys, tup.elts)):
-            fld, how = _field_of(e)
+            fld, how = _field_of(e, at)
             want = {"attributes": "json", "extra": "json", "bin": "calc"}.get(k, "plain")
             # the bin column is only required to be the feature's bin here; that it is *recomputed* (not the cached
             # attribute) is C06.R3 / C12.R5's obligation, not a fidelity clause
@@ -191,6 +202,7 @@ def r2(ctx):
 
 
 def r3(ctx):
+    from ..util import closure, walk_closure, resolve_name
     js = require_func(ctx, "helpers._jsonify")
     dumps = [c for c in calls_in(js.node) if call_attr(c) == "dumps"]
     ctx.floor("R3", len(dumps), 1, "json.dumps calls in _jsonify")
@@ -200,14 +212,16 @@ def r3(ctx):
             isinstance(k.value, ast.Constant) and k.value.value in (False, None) and k.arg in ("sort_keys", "indent", "default", "cls"))]
         ctx.ob("R3", not bad, "the stored JSON keeps key order and content (no sort_keys/default/ensure_ascii overrides)", node=c, func=js,
                sig="json.dumps options %s" % (bad or "plain"))
-        a = c.args[0] if c.args else None
-        if isinstance(a, ast.Attribute) and a.attr == "_d":
-            raw = True
         d = ctx.proj.dotted(c.func, js.module, js)
         ctx.ob("R3", d in ("simplejson.dumps", "json.dumps"), "serialisation uses the json module", node=c, func=js,
                sig="serialiser %s" % d, nontrivial=False)
-    ctx.ob("R3", raw, "an Attributes mapping is serialised through its raw underlying dict (lists stay lists, "
-           "independent of always_return_list)", func=js, sig="_jsonify dumps x._d" if raw else "_jsonify never dumps the raw mapping")
+    # the raw underlying dict of an Attributes mapping is what gets dumped: some read of `<param>._d` in _jsonify
+    # (directly as the argument, or through a local chosen under the isinstance(dict_class) test)
+    param = js.params[0]
+    raw = any(isinstance(n, ast.Attribute) and n.attr == "_d" and is_name(n.value, param) for n in ast.walk(js.node))
+    via_items = any(isinstance(n, ast.Call) and call_attr(n) in ("items", "keys", "values") and is_name(n.func.value, param) for n in ast.walk(js.node))
+    ctx.ob("R3", raw and not via_items, "an Attributes mapping is serialised through its raw underlying dict (lists stay lists, "
+           "independent of always_return_list)", func=js, sig="_jsonify dumps x._d" if raw and not via_items else "_jsonify never dumps the raw mapping")
     uj = require_func(ctx, "helpers._unjsonify")
     loads = [c for c in calls_in(uj.node) if call_attr(c) == "loads"]
     ctx.floor("R3", len(loads), 1, "json.loads calls in _unjsonify")
@@ -221,73 +235,92 @@ def r3(ctx):
     wraps = [c for c in calls_in(uj.node) if ctx.proj.dotted(c.func, uj.module, uj) in ("attributes.dict_class", "attributes.Attributes")]
     ok = False
     for c in wraps:
-        for p in parents(c):
-            if isinstance(p, ast.If) and "isattributes" in norm(p.test) and not norm(p.test).startswith("not"):
-                ok = True
+        from ..util import flat_guards
+        g = flat_guards(c, uj.node, uj)
+        if "isattributes" in g:
+            ok = True
+        par = c._parent
+        if isinstance(par, ast.IfExp) and norm(par.test) == "isattributes" and par.body is c:
+            ok = True
     ctx.ob("R3", ok, "decoded attributes are re-wrapped in the attribute container when isattributes", func=uj,
            sig="_unjsonify wraps in dict_class under isattributes" if ok else "_unjsonify does not re-wrap attributes")
     init = require_func(ctx, "feature.Feature.__init__")
-    calls = [c for c in calls_in(init.node) if call_attr(c) == "_unjsonify"]
-    got = {}
-    for c in calls:
-        tgt = norm(c.args[0]) if c.args else None
-        isa = kwarg(c, "isattributes")
-        got[tgt] = isinstance(isa, ast.Constant) and isa.value is True
-    ctx.ob("R3", got.get("attributes") is True, "string attributes are decoded with isattributes=True", func=init,
-           sig="Feature.__init__ decodes attributes: %s" % got.get("attributes"))
-    ctx.ob("R3", got.get("extra") is False, "string extra is decoded as a plain list", func=init,
-           sig="Feature.__init__ decodes extra: isattributes=%s" % got.get("extra"))
+    scope = closure(ctx, init)
+    calls = [(f, c) for f, c in walk_closure(scope, ast.Call) if call_attr(c) == "_unjsonify"]
+    with_attr = [c for f, c in calls if isinstance(kwarg(c, "isattributes"), ast.Constant) and kwarg(c, "isattributes").value is True]
+    without = [c for f, c in calls if kwarg(c, "isattributes") is None or (isinstance(kwarg(c, "isattributes"), ast.Constant) and kwarg(c, "isattributes").value is False)]
+    ctx.ob("R3", len(with_attr) >= 1, "string attributes are decoded with isattributes=True", func=init,
+           sig="Feature.__init__ decodes attributes with isattributes=True" if with_attr else "Feature.__init__ never decodes attributes as an attribute mapping")
+    ctx.ob("R3", len(without) >= 1, "string extra is decoded as a plain list", func=init,
+           sig="Feature.__init__ decodes extra as a plain list" if without else "Feature.__init__ decodes extra with isattributes")
+
+
+def _feature_returner_semantics(ctx, fr):
+    """Evaluate _feature_returner abstractly: which keyword set reaches the Feature constructor."""
+    from ..absint import Interp, Sym, Opaque, Unsupported
+    out = {}
+    for label, kw in (("nothing given", {}), ("dialect given", {"dialect": Sym("given_dialect", "any", True), "id": Sym("row_id", "str", True)})):
+        it = Interp(ctx)
+        selfobj = Opaque("self", "obj")
+        for a in ("dialect", "keep_order", "sort_attribute_values"):
+            selfobj.attrs[a] = Sym("self." + a, "any", True)
+        try:
+            traces = it.run(fr, dict(kw), self_obj=selfobj)
+        except Unsupported as e:
+            return None, str(e)
+        cons = [e for t in traces for e in t.events if e[0] == "construct"]
+        if len(traces) != 1 or len(cons) != 1:
+            return None, "%d traces / %d constructions" % (len(traces), len(cons))
+        out[label] = (cons[0][1], {k: getattr(v, "name", v) for k, v in cons[0][3].items()})
+    return out, None
 
 
 def r4(ctx):
+    from ..util import closure
+    from ..sqlbind import bound_rows, select_unpack, Unbound
+    sch = S.schema_from_script(ctx.folder.const("constants", "SCHEMA"))
     fin = require_func(ctx, "create._DBCreator._finalize")
-    sites = [s for s in execute_sites(ctx, [fin]) if s.stmts and s.stmts[0].verb == "INSERT" and s.stmts[0].table.lower() == "meta"]
-    ctx.floor("R4", len(sites), 1, "INSERT INTO meta sites")
+    scope = closure(ctx, fin)
+    sites = [s for s in execute_sites(ctx, scope) if s.stmts and s.stmts[0].verb == "INSERT" and s.stmts[0].table.lower() == "meta"]
+    ctx.ob("R4", len(sites) >= 1, "finalisation records the dialect in `meta`", func=fin, sig="meta row written by _finalize" if sites else "_finalize never inserts into `meta`")
     for s in sites:
-        st = s.stmts[0]
-        names = [v[2] for v in st.values if v[0] == "param"]
-        cols = [c.lower() for c in (st.columns or [])]
-        ok = "dialect" in cols and names and cols.index("dialect") < len(names) and names[cols.index("dialect")] == "dialect"
-        p = s.params
-        val = None
-        if isinstance(p, ast.Call) and is_name(p.func, "dict"):
-            val = kwarg(p, "dialect")
-        elif isinstance(p, ast.Dict):
-            for k, v in zip(p.keys, p.values):
-                if const_str(k) == "dialect":
-                    val = v
-        okv = val is not None and norm(val) == "helpers._jsonify(self.iterator.dialect)"
-        ctx.ob("R4", ok and okv, "the dialect persisted in meta is the JSON of the iterator's (file-wide) dialect", node=s.call, func=fin,
-               sig="meta.dialect := %s" % (norm(val) if val is not None else "?"))
+        try:
+            rows = bound_rows(s, sch, s.func)
+            val = rows[0][0].get("dialect")
+            shown = norm(val) if val is not None and not isinstance(val, tuple) else None
+        except Unbound as e:
+            shown = "unreadable (%s)" % e
+        ctx.ob("R4", shown == "helpers._jsonify(self.iterator.dialect)", "the dialect persisted in meta is the JSON of the iterator's (file-wide) dialect",
+               node=s.call, func=s.func, sig="meta.dialect := %s" % shown)
     init = require_func(ctx, "interface.FeatureDB.__init__")
-    msel = [s for s in execute_sites(ctx, [init]) if s.stmts and s.stmts[0].verb == "SELECT" and s.stmts[0].tables() == ["meta"]]
+    iscope = closure(ctx, init)
+    msel = [s for s in execute_sites(ctx, iscope) if s.stmts and s.stmts[0].verb == "SELECT" and s.stmts[0].tables() == ["meta"]]
     ctx.floor("R4", len(msel), 1, "SELECT ... FROM meta sites")
-    cols = [e[2].lower() for e, _a in msel[0].stmts[0].cols if e[0] == "col"]
-    unpack = [n for n in ast.walk(init.node) if isinstance(n, ast.Assign) and isinstance(n.targets[0], ast.Tuple)
-              and isinstance(n.value, ast.Call) and call_attr(n.value) == "fetchone"]
-    ok = bool(unpack) and [getattr(e, "id", None) for e in unpack[0].targets[0].elts] == cols
-    ctx.ob("R4", ok, "the meta row is unpacked in the order it is selected", func=init,
-           sig="meta select %s unpacked as %s" % (cols, [getattr(e, "id", None) for e in unpack[0].targets[0].elts] if unpack else None))
-    asg = [n for n in ast.walk(init.node) if isinstance(n, ast.Assign) and any(norm(t) == "self.dialect" for t in n.targets)]
-    ok = bool(asg) and all(isinstance(n.value, ast.Call) and call_attr(n.value) == "_unjsonify" and n.value.args and
-                           is_name(n.value.args[0], "dialect") for n in asg)
+    pairs, _n = select_unpack(msel[0], msel[0].func)
+    dname = dict(pairs).get("dialect") if pairs else None
+    ctx.ob("R4", dname is not None, "the meta row is unpacked column by column in the order it is selected", func=init,
+           sig="meta row unpack %s" % (pairs,), nontrivial=False)
+    asg = [n for f in iscope for n in ast.walk(f.node) if isinstance(n, ast.Assign) and any(norm(t) == "self.dialect" for t in n.targets)]
+    ok = bool(asg) and dname is not None and all(isinstance(n.value, ast.Call) and call_attr(n.value) == "_unjsonify" and n.value.args and
+                                                is_name(n.value.args[0], dname) for n in asg)
     ctx.ob("R4", ok, "FeatureDB.dialect is the decoded meta.dialect", func=init,
-           sig="self.dialect := %s" % (norm(asg[0].value) if asg else None))
+           sig="self.dialect := decoded meta.dialect" if ok else "self.dialect := %s (meta.dialect is bound to %s)" % (norm(asg[0].value) if asg else None, dname))
     fr = require_func(ctx, "interface.FeatureDB._feature_returner")
-    defaults = {}
-    for c in calls_in(fr.node):
-        if call_attr(c) == "setdefault" and len(c.args) == 2 and const_str(c.args[0]):
-            defaults[const_str(c.args[0])] = norm(c.args[1])
-    for k in ("dialect", "keep_order", "sort_attribute_values"):
-        ctx.ob("R4", defaults.get(k) == "self." + k, "_feature_returner defaults `%s` from the database object" % k, func=fr,
-               sig="_feature_returner %s := %s" % (k, defaults.get(k)))
-    ctor = [c for c in calls_in(fr.node) if ctx.proj.dotted(c.func, fr.module, fr) == "feature.Feature"]
-    ctx.ob("R4", len(ctor) == 1 and any(k.arg is None for k in ctor[0].keywords) if ctor else False,
-           "_feature_returner constructs the Feature from the completed keyword set", func=fr,
-           sig="_feature_returner constructs Feature(**kwargs)" if ctor else "_feature_returner does not construct a Feature")
-    # who-constructs: FeatureDB methods never build a Feature from a row directly
+    sem, err = _feature_returner_semantics(ctx, fr)
+    if sem is None:
+        ctx.ob("R4", False, "_feature_returner builds the Feature from the row plus the database's defaults", func=fr, sig="_feature_returner not analysable: %s" % err)
+    else:
+        cls0, kw0 = sem["nothing given"]
+        ok = cls0.endswith("Feature") and all(kw0.get(k) == "self." + k for k in ("dialect", "keep_order", "sort_attribute_values"))
+        ctx.ob("R4", ok, "_feature_returner defaults dialect, keep_order and sort_attribute_values from the database object", func=fr,
+               sig="defaults %s" % sorted((k, v) for k, v in kw0.items() if k in ("dialect", "keep_order", "sort_attribute_values")))
+        cls1, kw1 = sem["dialect given"]
+        ok = kw1.get("dialect") == "given_dialect" and kw1.get("id") == "row_id" and kw1.get("keep_order") == "self.keep_order"
+        ctx.ob("R4", ok, "explicitly given keywords win over the defaults and every row column reaches the constructor", func=fr,
+               sig="explicit keywords kept" if ok else "explicit keywords lost: %s" % sorted(kw1.items()))
     db = ctx.proj.cls("interface.FeatureDB")
     n_ret = 0
+    # who-constructs: FeatureDB methods never build a Feature from a row directly
     for m in ctx.proj.funcs.values():
         if m.module.name != "interface":
             continue
@@ -312,70 +345,163 @@ def r5(ctx):
     gk = ctx.folder.const("constants", "_gffkeys")
     ai = gk.index("attributes")
     ffl = require_func(ctx, "feature.feature_from_line")
-    # attribute column index
-    subs = [n for n in ast.walk(ffl.node) if isinstance(n, ast.Subscript) and is_name(n.value, "fields")]
-    idx = [n for n in subs if isinstance(n.slice, ast.Constant)]
-    ctx.floor("R5", len(idx), 1, "constant-index reads of `fields` in feature_from_line")
-    for n in idx:
-        ctx.ob("R5", n.slice.value == ai, "the attribute column is column %d (index of 'attributes' in _gffkeys)" % ai, node=n, func=ffl,
-               sig="attribute column read: %s" % norm(n))
-    sl = [n for n in subs if isinstance(n.slice, ast.Slice)]
-    ctx.floor("R5", len(sl), 1, "slices of `fields` in feature_from_line")
-    for n in sl:
-        lo = n.slice.lower
-        ok = isinstance(lo, ast.Constant) and lo.value == len(gk) and n.slice.upper is None
-        ctx.ob("R5", ok, "extra columns start after the %d standard columns" % len(gk), node=n, func=ffl,
-               sig="extras slice %s" % norm(n))
+    from ..absint import Interp, Sym, Opaque, AStr, Unsupported
+    # ---- parsing a line: which constructor keywords receive which column, by abstract evaluation of feature_from_line
+    def sk_summary(interp, pos, kw, node):
+        interp.trace.events.append(("split_keyvals", pos, kw, node))
+        return (Sym("ATTRS", "any", True), Sym("INFERRED", "any", True))
+    for ncols in (9, 11, 8):
+        cols = [Sym("c%d" % (i + 1), "str", True) for i in range(ncols)]
+        parts = []
+        for i, c in enumerate(cols):
+            if i:
+                parts.append("\t")
+            parts.append(c)
+        line = AStr(parts + ["\n"])
+        for dial in (None, Sym("GIVEN", "any", True)):
+            it = Interp(ctx, {"parser._split_keyvals": sk_summary})
+            label = "%d columns, dialect %s" % (ncols, "given" if dial is not None else "inferred")
+            try:
+                traces = it.run(ffl, {"line": line, "dialect": dial, "strict": True, "keep_order": Sym("KO", "any", None)})
+            except Unsupported as e:
+                ctx.ob("R5", False, "feature_from_line is within the analysable subset", func=ffl, sig="feature_from_line not analysable: %s" % e)
+                continue
+            for t in traces:
+                cons = [e for e in t.events if e[0] == "construct"]
+                sk = [e for e in t.events if e[0] == "split_keyvals"]
+                if t.result[0] != "return" or len(cons) != 1:
+                    ctx.ob("R5", False, "a strict tab-separated line is turned into one Feature (%s)" % label, func=ffl,
+                           sig="feature_from_line(%s): %s" % (label, t.result[:2] if t.result[0] != "return" else "%d constructions" % len(cons)))
+                    continue
+                kw = cons[0][3]
+                def nm(v):
+                    if isinstance(v, Sym):
+                        return v.name
+                    if isinstance(v, AStr) and len(v.parts) == 1 and isinstance(v.parts[0], Sym):
+                        return v.parts[0].name
+                    if isinstance(v, list):
+                        return [nm(x) for x in v]
+                    return v
+                got = {k: nm(v) for k, v in kw.items()}
+                exp = {k: "c%d" % (i + 1) for i, k in enumerate(gk[:-1]) if i < ncols}
+                exp["attributes"] = "ATTRS"
+                exp["extra"] = ["c%d" % (i + 1) for i in range(len(gk), ncols)]
+                exp["dialect"] = "GIVEN" if dial is not None else "INFERRED"
+                exp["keep_order"] = "KO"
+                ok = all(got.get(k) == v for k, v in exp.items()) and set(got) <= set(exp)
+                ctx.ob("R5", ok, "columns 1-8 become the fixed fields, column 9 the parsed attributes, further columns the extras; the dialect is the "
+                       "supplied one, else the inferred one (%s)" % label, func=ffl,
+                       sig="feature_from_line keywords ok (%s)" % label if ok else "feature_from_line(%s) builds %s" % (label, sorted((k, str(v)) for k, v in got.items() if exp.get(k) != v)))
+                a = nm(sk[0][1][0]) if sk and sk[0][1] else None
+                want_attr = "c%d" % (ai + 1) if ncols > ai else ""
+                okd = len(sk) == 1 and a == want_attr and nm(sk[0][2].get("dialect", sk[0][1][1] if len(sk[0][1]) > 1 else None)) == ("GIVEN" if dial is not None else None)
+                ctx.ob("R5", okd, "the attribute column (column %d, '' when absent) is parsed with the supplied dialect (None = infer)" % (ai + 1), func=ffl,
+                       sig="attribute column parsed: %s" % a if okd else "attribute parser called with %s / %s" % (a, {k: nm(v) for k, v in (sk[0][2] if sk else {}).items()}),
+                       nontrivial=False)
     splits = [c for c in calls_in(ffl.node) if call_attr(c) == "split" and len(c.args) == 2]
     for c in splits:
         ok = isinstance(c.args[1], ast.Constant) and c.args[1].value == len(gk) - 1 and isinstance(c.args[0], ast.Constant) and c.args[0].value is None
         ctx.ob("R5", ok, "the non-strict form splits on blanks at most %d times (9 columns)" % (len(gk) - 1), node=c, func=ffl,
                sig="blank split %s" % norm(c))
-    ctx.floor("R5", len(splits), 1, "maxsplit splits in feature_from_line")
-    tabs = [c for c in calls_in(ffl.node) if call_attr(c) == "split" and len(c.args) == 1 and const_str(c.args[0]) == "\t"]
-    ctx.floor("R5", len(tabs), 2, "tab splits in feature_from_line")
-    zips = [c for c in calls_in(ffl.node) if is_name(c.func, "zip")]
-    ok = any(len(c.args) == 2 and norm(c.args[0]) == "constants._gffkeys" and is_name(c.args[1], "fields") for c in zips)
-    ctx.ob("R5", ok, "columns are named by zipping _gffkeys with the fields", func=ffl,
-           sig="zip(_gffkeys, fields)" if ok else "column naming: %s" % [norm(c) for c in zips])
-    stores = {}
-    for n in ast.walk(ffl.node):
-        if isinstance(n, ast.Assign) and isinstance(n.targets[0], ast.Subscript) and is_name(n.targets[0].value, "d"):
-            stores[const_str(n.targets[0].slice)] = norm(n.value)
-    ctx.ob("R5", stores.get("attributes") == "attrs", "the parsed mapping replaces the raw attribute column", func=ffl,
-           sig="d['attributes'] := %s" % stores.get("attributes"))
-    # ---- printing
+    ctx.ob("R5", len(splits) >= 1, "the non-strict form accepts blank-separated columns", func=ffl, sig="%d blank split(s) with maxsplit" % len(splits), nontrivial=False)
+    # ---- printing: the line template of Feature.__unicode__, by abstract evaluation over a symbolic feature
     uni = require_func(ctx, "feature.Feature.__unicode__")
-    src = [n for n in ast.walk(uni.node) if isinstance(n, (ast.ListComp,)) and "constants._gffkeys[:-1]" in norm(n)]
-    ctx.ob("R5", bool(src) and "getattr(self, k)" in norm(src[0]), "printing starts from the 8 fixed columns in _gffkeys order", func=uni,
-           sig="printed columns from %s" % (norm(src[0].generators[0].iter) if src else "?"))
-    si, ei = gk.index("start"), gk.index("end")
-    tests = {}
-    for n in ast.walk(uni.node):
-        if isinstance(n, ast.If) and isinstance(n.test, ast.Compare) and isinstance(n.test.left, ast.Subscript) and \
-                is_name(n.test.left.value, "items") and isinstance(n.test.left.slice, ast.Constant) and \
-                isinstance(n.test.ops[0], ast.Is) and isinstance(n.test.comparators[0], ast.Constant) and n.test.comparators[0].value is None:
-            body = n.body[0] if n.body else None
-            tests[n.test.left.slice.value] = norm(body.value) if isinstance(body, ast.Assign) else None
-    ctx.ob("R5", tests.get(si) == "'.'" and tests.get(ei) == "'.'", "a missing start/end is printed as '.'", func=uni,
-           sig="None coordinates printed as %s at indices %s" % (sorted(set(map(str, tests.values()))), sorted(tests)))
-    joins = [c for c in calls_in(uni.node) if call_attr(c) == "join" and const_str(c.func.value) == "\t"]
-    ctx.ob("R5", len(joins) >= 2, "columns and extra columns are joined by TAB", func=uni, sig="%d TAB joins in __unicode__" % len(joins))
-    ret = [n for n in ast.walk(uni.node) if isinstance(n, ast.Return)]
-    ok = bool(ret) and isinstance(ret[-1].value, ast.Call) and call_attr(ret[-1].value) == "join" and \
-        const_str(ret[-1].value.func.value) == "\t" and is_name(ret[-1].value.args[0], "items")
-    ctx.ob("R5", ok, "the printed line is the TAB-join of the items", func=uni, sig="__unicode__ returns %s" % (norm(ret[-1].value) if ret else None))
-    apps = [norm(c.args[0]) for c in calls_in(uni.node) if call_attr(c) == "append" and is_name(c.func.value, "items")]
-    ok = len(apps) == 2 and "reconstructed" in apps[0] and "self.extra" in apps[1]
-    ctx.ob("R5", ok, "the attribute string is column 9 and the extra columns follow", func=uni, sig="appended after the fixed columns: %s" % apps)
+    from ..absint import Interp, Sym, Opaque, AStr, Unsupported
+    cols = list(gk[:-1])
+
+    def summary(interp, pos, kw, node):
+        interp.trace.events.append(("reconstruct", pos, kw, node))
+        return Sym("ATTRIBUTES", "str", True)
+    for start_none in (False, True):
+        for extra in ([], [Sym("x1", "str", True), Sym("x2", "str", True)]):
+            it = Interp(ctx, {"parser._reconstruct": summary})
+            me = Opaque("self", "obj")
+            for c in cols:
+                me.attrs[c] = Sym(c, "int" if c in ("start", "end") else "str", True)
+            if start_none:
+                me.attrs["start"] = None
+                me.attrs["end"] = None
+            me.attrs["stop"] = me.attrs["end"]
+            me.attrs["chrom"] = me.attrs["seqid"]
+            me.attrs["attributes"] = Sym("self.attributes", "any", True)
+            me.attrs["dialect"] = Sym("self.dialect", "any", True)
+            me.attrs["keep_order"] = Sym("self.keep_order", "any", None)
+            me.attrs["sort_attribute_values"] = Sym("self.sort_attribute_values", "any", None)
+            me.attrs["extra"] = list(extra)
+            label = "start/end %s, %d extra columns" % ("None" if start_none else "given", len(extra))
+            try:
+                traces = it.run(uni, {}, self_obj=me)
+            except Unsupported as e:
+                ctx.ob("R5", False, "Feature.__unicode__ is within the analysable subset", func=uni, sig="__unicode__ not analysable: %s" % e)
+                continue
+            want = []
+            for c in cols:
+                want.append("." if (start_none and c in ("start", "end")) else ("hole", c))
+            want.append(("hole", "ATTRIBUTES"))
+            want += [("hole", x.name) for x in extra]
+            for t in traces:
+                got = None
+                if t.result[0] == "return":
+                    v = t.result[1]
+                    parts = v.parts if isinstance(v, AStr) else [v] if isinstance(v, str) else None
+                    if parts is not None:
+                        got = []
+                        for p_ in parts:
+                            if isinstance(p_, str):
+                                segs = p_.split("\t")
+                                for i_, sg in enumerate(segs):
+                                    if i_:
+                                        got.append("\t")
+                                    if sg:
+                                        got.append(sg)
+                            elif isinstance(p_, Sym):
+                                got.append(("hole", p_.name))
+                            else:
+                                got.append(("?", repr(p_)))
+                exp = []
+                for i_, w in enumerate(want):
+                    if i_:
+                        exp.append("\t")
+                    exp.append(w)
+                ok = got == exp
+                shown = "".join(x if isinstance(x, str) else "<%s>" % x[1] for x in (got or [])).replace("\t", "|")
+                ctx.ob("R5", ok, "the printed line is the eight fixed columns in _gffkeys order, the attribute string, then the extra columns, TAB-separated "
+                       "('.' for a missing coordinate) -- %s" % label, func=uni,
+                       sig="line template ok (%s)" % label if ok else "line template (%s): %s" % (label, shown if got is not None else t.result[:2]))
+                rec = [e for e in t.events if e[0] == "reconstruct"]
+                okr = len(rec) == 1 and [getattr(a, "name", a) for a in rec[0][1][:2]] == ["self.attributes", "self.dialect"] and \
+                    getattr(rec[0][2].get("keep_order"), "name", None) == "self.keep_order" and \
+                    getattr(rec[0][2].get("sort_attribute_values"), "name", None) == "self.sort_attribute_values"
+                ctx.ob("R5", okr, "the attribute string is rebuilt from the feature's own mapping, dialect and print flags", func=uni,
+                       sig="_reconstruct(self.attributes, self.dialect, keep_order=self.keep_order, sort_attribute_values=...)" if okr else
+                       "_reconstruct called with %s" % ([getattr(a, "name", a) for a in rec[0][1]] if rec else None), nontrivial=False)
     init = require_func(ctx, "feature.Feature.__init__")
-    for v in ("start", "end"):
-        ok = False
-        for n in ast.walk(init.node):
-            if isinstance(n, ast.If) and v in norm(n.test) and "'.'" in norm(n.test) and n.body and isinstance(n.body[0], ast.Assign) \
-                    and is_name(n.body[0].targets[0], v) and isinstance(n.body[0].value, ast.Constant) and n.body[0].value.value is None:
-                ok = True
-        ctx.ob("R5", ok, "'.' for %s is stored as None (inverse of printing)" % v, func=init, sig="'.' %s -> None" % v if ok else "'.' %s not mapped to None" % v)
+    from ..builders import bins_summary
+    for label, sv, ev, want in (("'.' / ''", ".", "", (None, None)), ("None", None, None, (None, None)),
+                                ("text", Sym("S", "str", True), Sym("E", "str", True), ("int(S)", "int(E)"))):
+        it = Interp(ctx, {"bins.bins": bins_summary})
+        me = Opaque("self", "obj")
+        try:
+            traces = it.run(init, {"start": sv, "end": ev}, self_obj=me)
+        except Unsupported as e:
+            ctx.ob("R5", False, "Feature.__init__ is within the analysable subset", func=init, sig="Feature.__init__ not analysable: %s" % e)
+            break
+        from ..absint import ACond
+        for t in traces:
+            # the symbolic text stands for a number: skip the forks in which it was taken to be a '.'/'' placeholder
+            if any(isinstance(d[0], ACond) and d[0].op == "==" and d[1] is True and isinstance(d[0].right, str) for d in t.decisions):
+                continue
+            stores = {e[2]: e[3] for e in t.events if e[0] == "setattr" and e[1] is me}
+            def shown(v):
+                if v is None:
+                    return None
+                if isinstance(v, Sym):
+                    return "int(%s)" % v.name if v.kind == "int" else v.name
+                return repr(v)
+            got = (shown(stores.get("start")), shown(stores.get("end")))
+            ok = t.result[0] == "return" and got == want
+            ctx.ob("R5", ok, "start/end given as %s are stored as %s (the inverse of printing '.')" % (label, want), func=init,
+                   sig="coordinates %s -> %s" % (label, got) if t.result[0] == "return" else "Feature.__init__ raises %s" % (t.result[1],))
 
 
 def check(ctx):
@@ -396,9 +522,12 @@ def check(ctx):
     from . import c07
     n0 = len(ctx.obs)
     rc = require_func(ctx, "parser._reconstruct")
-    c07.no_dialect_mutation(ctx, rc, "R6")
+    from ..util import closure
+    for f_ in closure(ctx, rc):
+        c07.no_dialect_mutation(ctx, f_, "R6")
     c07.r_printer(ctx, rule="R6")
     c07.r2_r3(ctx)
     c07.r_decode_layer(ctx, rule="R6")
+    c07.r_roundtrip(ctx, rule="R6")
     for o in ctx.obs[n0:]:
         o.rule = "C01.R6"
